@@ -94,7 +94,8 @@ fn thresholds_c06(_t: Tier) -> Vec<(&'static str, u64)> {
     ]
 }
 
-const C05_SIGS: [&str; 14] = [
+const C05_SIGS: [&str; 15] = [
+    "rule-without-rows",
     "junction-glyph",
     "bar-not-continued-above",
     "bar-not-continued-below",
@@ -173,6 +174,14 @@ fn run_tables(seed: u64, idx: u64, tier: Tier, out: &mut CaseOut, c05: bool) {
             for c in table.rows.iter_mut().flatten() {
                 if c.words.len() > 1 && c.nested.is_none() && crng.chance(1, 2) {
                     c.paras = true;
+                }
+            }
+        }
+        // cells that hold white space only (top-level table only)
+        if crng.chance(1, 6) {
+            for c in table.rows.iter_mut().flatten() {
+                if c.words.is_empty() && c.nested.is_none() && c.trail_br == 0 && crng.chance(1, 2) {
+                    c.blank = true;
                 }
             }
         }
@@ -316,6 +325,14 @@ fn run_tables(seed: u64, idx: u64, tier: Tier, out: &mut CaseOut, c05: bool) {
             out.sample = Some(sample(&input, w_full, cfg, s_full));
         }
         let mut findings: Vec<Finding> = Vec::new();
+        // a table none of whose rows renders anything has nothing to frame
+        if !table.has_nested() && table.visible_rows().is_empty() && grid.iter().any(|r| r.iter().any(|c| is_box(*c) || *c == '/')) {
+            let blank = table.rows.iter().flatten().any(|c| c.blank);
+            findings.push(Finding {
+                sig: if blank { "rule-without-rows:blank-cells".into() } else { "rule-without-rows".into() },
+                what: format!("no row of the table has any content, but {} line(s) of rules are drawn", grid.len()),
+            });
+        }
         if let Some(j) = zero_with_own_text {
             findings.push(Finding {
                 sig: "text-column-zero-width".into(),
